@@ -49,8 +49,12 @@ def centres(rng, kind):
         m, k = int(rng.integers(3, 12)), int(rng.integers(3, 12))
         a = float(rng.choice([1.0, 2.0, 4.0]))
         pts = np.array([((i + 0.5 * (j % 2)) * a, j * a * np.sqrt(3) / 2) for i in range(m) for j in range(k)], float)
-    if rng.random() < 0.3:
+    u = rng.random()
+    if u < 0.3:
         pts = pts + rng.uniform(-50, 50, 2)
+    elif u < 0.5:
+        # centres far from the origin (stage coordinates): corners must still be told apart to three decimals
+        pts = pts + np.round(rng.choice([-1, 1], 2) * 10 ** rng.uniform(3, 5.5, 2), 3)
     return [tuple(float(x) for x in p) for p in pts]
 
 
@@ -184,6 +188,10 @@ def run_case(case):
         try:
             elems = tessellation.create_lattice_elements(cs, **kw)
             tessellation.create_lattice(*elems)
+            if case["seed"][2] % 3 == 0:
+                # the same elements turned into a lattice a second time: the first call must not have consumed them
+                tessellation.create_lattice(*elems)
+                hist["second-lattice-from-same-elements"] = 1
         except Exception as exc:
             import traceback
             tb = traceback.format_exc()
